@@ -164,4 +164,234 @@ theorem scaledValidate_between {scale bmin bmax ar rr : F} (hb : (DType.scaled s
   obtain ⟨c, hc⟩ := scaledCall_between fs ps hvlo hvhi hv flo fhi hc1 hc2 hx1 hx2
   exact scaledValidate_of_parts hv hc (lt_of_lt_of_le l1 hx1) (lt_of_le_of_lt hx2 u2) ha hb'
 
+/-! ### numbers offered to a numeric type -/
+
+theorem check_ok {r : Res F} (h : check r = .ok ()) : ∃ x, r = .ok x := by
+  unfold check at h
+  split at h
+  · exact ⟨_, rfl⟩
+  · cases h
+
+theorem limitsValid_parts {b : DType F} {lo hi : PVal F} (h : limitsValid b lo hi = .ok ()) :
+    (∃ r, validate b lo none = .ok r) ∧ (∃ r, validate b hi none = .ok r) := by
+  unfold limitsValid at h
+  split at h
+  · cases h
+  · rename_i r hr
+    exact ⟨⟨r, hr⟩, check_ok h⟩
+
+theorem toFloat_of_doubleValidate {bmin bmax ar rr : F} {v : PVal F} {r : F}
+    (h : doubleValidate bmin bmax ar rr v = .ok r) : ∃ x, toFloat? v = some x := by
+  unfold doubleValidate doubleCall at h
+  cases hv : toFloat? v with
+  | none => rw [hv] at h; cases h
+  | some x => exact ⟨x, rfl⟩
+
+theorem toFloat_of_scaledValidate {scale bmin bmax : F} {v : PVal F} {r : F}
+    (h : scaledValidate scale bmin bmax v = .ok r) : ∃ x, toFloat? v = some x := by
+  unfold scaledValidate at h
+  split at h
+  · cases h
+  · rename_i c hc
+    obtain ⟨x, _, _, hx, _⟩ := scaledCall_ok hc
+    exact ⟨x, hx⟩
+
+/-- is `b` a `double` or a `scaled` type -/
+def IsFloatKind : DType F → Prop
+  | .double .. => True
+  | .scaled .. => True
+  | _ => False
+
+/-- a float-valued type that accepts two finite numbers accepts every number between them -/
+theorem floatKind_between {b : DType F} (hk : IsFloatKind b) (hb : b.WF) (hres : ResLeOne b)
+    {vlo vhi v : PVal F} {lo hi x : F}
+    (hvlo : toFloat? vlo = some lo) (hvhi : toFloat? vhi = some hi) (hv : toFloat? v = some x)
+    (flo : isFinite lo = true) (fhi : isFinite hi = true)
+    (h1 : ∃ r, validate b vlo none = .ok r) (h2 : ∃ r, validate b vhi none = .ok r)
+    (hx1 : le lo x = true) (hx2 : le x hi = true) : ∃ r, validate b v none = .ok r := by
+  obtain ⟨r1, h1⟩ := h1
+  obtain ⟨r2, h2⟩ := h2
+  cases b <;> simp only [IsFloatKind] at hk
+  case double bmin bmax ar rr =>
+    simp only [validate, conv] at h1 h2 ⊢
+    obtain ⟨a1, e1, _⟩ := map_ok h1
+    obtain ⟨a2, e2, _⟩ := map_ok h2
+    simp only [ResLeOne] at hres
+    obtain ⟨r, hr⟩ := doubleValidate_between hb hres hvlo hvhi hv flo fhi e1 e2 hx1 hx2
+    exact ⟨.float r, by rw [hr]; rfl⟩
+  case scaled scale bmin bmax ar rr =>
+    simp only [validate, conv] at h1 h2 ⊢
+    obtain ⟨a1, e1, _⟩ := map_ok h1
+    obtain ⟨a2, e2, _⟩ := map_ok h2
+    obtain ⟨r, hr⟩ := scaledValidate_between hb hvlo hvhi hv flo fhi e1 e2 hx1 hx2
+    exact ⟨.float r, by rw [hr]; rfl⟩
+
+/-- the float a validated number was -/
+theorem toFloat_of_validate {b : DType F} (hk : IsFloatKind b) {v r : PVal F} (h : validate b v none = .ok r) :
+    ∃ x, toFloat? v = some x := by
+  cases b <;> simp only [IsFloatKind] at hk
+  case double =>
+    simp only [validate, conv] at h
+    obtain ⟨a, e, _⟩ := map_ok h
+    exact toFloat_of_doubleValidate e
+  case scaled =>
+    simp only [validate, conv] at h
+    obtain ⟨a, e, _⟩ := map_ok h
+    exact toFloat_of_scaledValidate e
+
+/-- float limits `lo ≤ hi` (canonical, finite) accepted ⇒ every float between them accepted -/
+theorem floats_between {b : DType F} (hk : IsFloatKind b) (hb : b.WF) (hres : ResLeOne b) {lo hi x : F}
+    (flo : isFinite lo = true) (fhi : isFinite hi = true) (clo : addZero lo = lo) (chi : addZero hi = hi)
+    (h : limitsValid b (.float lo) (.float hi) = .ok ())
+    (hx1 : le lo x = true) (hx2 : le x hi = true) : ∃ r, validate b (.float x) none = .ok r := by
+  obtain ⟨h1, h2⟩ := limitsValid_parts h
+  refine floatKind_between hk hb hres (lo := lo) (hi := hi) (x := addZero x) ?_ ?_ rfl flo fhi h1 h2 ?_ ?_
+  · simp [toFloat?, clo]
+  · simp [toFloat?, chi]
+  · rw [CompatLaws.addZero_le_right]; exact hx1
+  · rw [CompatLaws.addZero_le_left]; exact hx2
+
+/-- integer limits accepted by a float-valued type ⇒ every integer between them accepted -/
+theorem ints_between {b : DType F} (hk : IsFloatKind b) (hb : b.WF) (hres : ResLeOne b) {lo hi i : Int}
+    (h : limitsValid b (.int lo) (.int hi) = .ok ()) (h1 : lo ≤ i) (h2 : i ≤ hi) :
+    ∃ r, validate b (.int i) none = .ok r := by
+  obtain ⟨v1, v2⟩ := limitsValid_parts h
+  obtain ⟨r1, e1⟩ := v1
+  obtain ⟨r2, e2⟩ := v2
+  obtain ⟨xlo, hlo⟩ := toFloat_of_validate hk e1
+  obtain ⟨xhi, hhi⟩ := toFloat_of_validate hk e2
+  have hlo' : (ofInt lo : Option F) = some xlo := by simpa [toFloat?] using hlo
+  have hhi' : (ofInt hi : Option F) = some xhi := by simpa [toFloat?] using hhi
+  obtain ⟨x, hx⟩ := CompatLaws.ofInt_between lo i hi xlo xhi hlo' hhi' h1 h2
+  exact floatKind_between hk hb hres hlo hhi (v := .int i) (x := x) (by simpa [toFloat?] using hx)
+    (LawfulFloatOps.ofInt_finite _ _ hlo') (LawfulFloatOps.ofInt_finite _ _ hhi') ⟨r1, e1⟩ ⟨r2, e2⟩
+    (LawfulFloatOps.ofInt_mono lo i xlo x h1 hlo' hx) (LawfulFloatOps.ofInt_mono i hi x xhi h2 hx hhi')
+
+theorem intValidate_int {bmin bmax i : Int} :
+    intValidate (F := F) bmin bmax (.int i) =
+      (match (ofInt i : Option F) with
+       | none => .error .wrongType
+       | some _ => if bmin ≤ i ∧ i ≤ bmax then .ok i else .error .range) := by
+  simp only [intValidate, intCall]
+  cases (ofInt i : Option F) <;> rfl
+
+/-- integer limits accepted by an integer type ⇒ every integer between them accepted -/
+theorem ints_between_int {bmin bmax lo hi i : Int}
+    (h : limitsValid (.int bmin bmax : DType F) (.int lo) (.int hi) = .ok ()) (h1 : lo ≤ i) (h2 : i ≤ hi) :
+    ∃ r, validate (.int bmin bmax : DType F) (.int i) none = .ok r := by
+  obtain ⟨⟨r1, e1⟩, ⟨r2, e2⟩⟩ := limitsValid_parts h
+  simp only [validate, conv] at e1 e2 ⊢
+  obtain ⟨a1, e1, _⟩ := map_ok e1
+  obtain ⟨a2, e2, _⟩ := map_ok e2
+  rw [intValidate_int] at e1 e2 ⊢
+  cases hlo : (ofInt lo : Option F) with
+  | none => rw [hlo] at e1; cases e1
+  | some xlo =>
+    cases hhi : (ofInt hi : Option F) with
+    | none => rw [hhi] at e2; cases e2
+    | some xhi =>
+      rw [hlo] at e1; rw [hhi] at e2
+      simp only at e1 e2
+      split at e1
+      · rename_i c1
+        split at e2
+        · rename_i c2
+          obtain ⟨x, hx⟩ := CompatLaws.ofInt_between lo i hi xlo xhi hlo hhi h1 h2
+          refine ⟨.int i, ?_⟩
+          rw [hx]
+          have : bmin ≤ i ∧ i ≤ bmax := ⟨by omega, by omega⟩
+          simp only [this, and_self, if_true]
+          rfl
+        · cases e2
+      · cases e1
+
+/-! ### loops -/
+
+theorem allFrom_ok {p : Int → Except Err Unit} : ∀ (n : Nat) (lo : Int), allFrom p lo n = .ok () →
+    ∀ i, lo ≤ i → i < lo + n → p i = .ok () := by
+  intro n
+  induction n with
+  | zero => intro lo _ i h1 h2; omega
+  | succ n ih =>
+    intro lo h i h1 h2
+    simp only [allFrom] at h
+    split at h
+    · cases h
+    · rename_i u hu
+      by_cases e : i = lo
+      · subst e; cases u; exact hu
+      · exact ih (lo + 1) h i (by omega) (by omega)
+
+theorem allFrom_of_all {p : Int → Except Err Unit} : ∀ (n : Nat) (lo : Int),
+    (∀ i, lo ≤ i → i < lo + n → p i = .ok ()) → allFrom p lo n = .ok () := by
+  intro n
+  induction n with
+  | zero => intro lo _; rfl
+  | succ n ih =>
+    intro lo h
+    simp only [allFrom]
+    rw [h lo (by omega) (by omega)]
+    exact ih (lo + 1) (fun i h1 h2 => h i (by omega) (by omega))
+
+theorem allMembers_ok {p : String → Int → Except Err Unit} : ∀ (ms : List (String × Int)),
+    allMembers p ms = .ok () → ∀ m ∈ ms, p m.1 m.2 = .ok () := by
+  intro ms
+  induction ms with
+  | nil => intro _ m hm; cases hm
+  | cons hd tl ih =>
+    intro h m hm
+    obtain ⟨n, v⟩ := hd
+    simp only [allMembers] at h
+    split at h
+    · cases h
+    · rename_i u hu
+      rcases List.mem_cons.1 hm with e | e
+      · subst e; cases u; exact hu
+      · exact ih h m e
+
+theorem allMembers_of_all {p : String → Int → Except Err Unit} : ∀ (ms : List (String × Int)),
+    (∀ m ∈ ms, p m.1 m.2 = .ok ()) → allMembers p ms = .ok () := by
+  intro ms
+  induction ms with
+  | nil => intro _; rfl
+  | cons hd tl ih =>
+    intro h
+    obtain ⟨n, v⟩ := hd
+    simp only [allMembers]
+    rw [h (n, v) (List.mem_cons_self ..)]
+    exact ih (fun m hm => h m (List.mem_cons_of_mem _ hm))
+
+theorem mapPrev_all_ok {f : PVal F → Option (PVal F) → Res F} : ∀ (vs : List (PVal F)),
+    (∀ v ∈ vs, ∃ r, f v none = .ok r) → ∃ rs, mapPrev f vs [] = .ok rs := by
+  intro vs
+  induction vs with
+  | nil => intro _; exact ⟨[], rfl⟩
+  | cons v vs ih =>
+    intro h
+    obtain ⟨r, hr⟩ := h v (List.mem_cons_self ..)
+    obtain ⟨rs, hrs⟩ := ih (fun x hx => h x (List.mem_cons_of_mem _ hx))
+    refine ⟨r :: rs, ?_⟩
+    simp only [mapPrev, List.head?_nil, List.tail_nil, hr, hrs]
+
+theorem foldFields_all_ok {f : String → PVal F → Option (Res F)} : ∀ (items acc : List (String × PVal F)),
+    (∀ kv ∈ items, kv.2 = .none ∨ ∃ r, f kv.1 kv.2 = some (.ok r)) → ∃ res, foldFields f items acc = .ok res := by
+  intro items
+  induction items with
+  | nil => intro acc _; exact ⟨acc, rfl⟩
+  | cons hd tl ih =>
+    intro acc h
+    obtain ⟨k, v⟩ := hd
+    have htl : ∀ kv ∈ tl, kv.2 = .none ∨ ∃ r, f kv.1 kv.2 = some (.ok r) :=
+      fun kv hkv => h kv (List.mem_cons_of_mem _ hkv)
+    rcases h (k, v) (List.mem_cons_self ..) with e | ⟨r, hr⟩
+    · simp only at e; subst e
+      simp only [foldFields]; exact ih acc htl
+    · cases v
+      case none => simp only [foldFields]; exact ih acc htl
+      all_goals
+        simp only [foldFields]
+        simp only at hr
+        rw [hr]
+        exact ih _ htl
+
 end Frappy.Lemmas.C03
